@@ -289,12 +289,24 @@ def exc_fmt(p, res):
             if isinstance(n, ast.BinOp) and isinstance(n.op, ast.Mod):
                 fmts = _fmt_strings(p, f, n.left)
                 if fmts is None:
-                    if p.type_of(f, n.left) == 'str' or isinstance(n.left, ast.BinOp):
-                        # built format (frac): checked below
-                        if src_of(n.left) == "'%.' + str(digits) + 'f'":
-                            res.ok('%s: %s' % (f.short, src_of(n)))
+                    from .. import shape
+                    defs = shape.defs_of(f.node, params=f.params)
+                    left = shape.expand(n.left, defs)
+                    parts = shape.strparts(left) if isinstance(left, (ast.BinOp, ast.JoinedStr)) else None
+                    if parts is not None and any(isinstance(x, str) for x in parts) and any(isinstance(x, tuple) for x in parts):
+                        # a format string assembled from constants and data
+                        data = [x[1] for x in parts if isinstance(x, tuple)]
+                        numeric = all(d.startswith(('str(', 'int(', 'len(')) and d.endswith(')') and (p.type_of(f, ast.parse(d, mode='eval').body.args[0]) in ('int', 'float') or
+                                      any(a.arg == d[4:-1] and (a.annotation is None or src_of(a.annotation) in ('int', 'float')) and isinstance(f.defaults.get(a.arg), ast.Constant) and isinstance(f.defaults[a.arg].value, int)
+                                          for a in f.node.args.args)) for d in data)
+                        if numeric:
+                            res.ok('%s: %s (format assembled from constants and a number)' % (f.short, src_of(n)))
                         else:
-                            res.bad(F('EXC-FMT', f, n, src_of(n), 'format string is not a constant: placeholder count cannot be checked'))
+                            res.bad(F('EXC-FMT', f, n, '%s  with format = %s' % (src_of(n), src_of(left)),
+                                      'the format string is assembled from text data (%s): a %% inside that text is read as a conversion directive (ValueError / TypeError)' % ', '.join(data),
+                                      failing_input="expand('w100%)', {'type': 'stylesheet'})"))
+                    elif p.type_of(f, n.left) == 'str' or isinstance(n.left, ast.BinOp):
+                        res.undecided('%s: %s' % (f.short, src_of(n)), 'format string is not a constant: placeholder count cannot be checked')
                     continue
                 nargs = len(n.right.elts) if isinstance(n.right, ast.Tuple) else 1
                 for s in fmts:
